@@ -25,7 +25,9 @@ class Contract:
     def __init__(self, qual, params=None, requires=(), ensures=(), raises=None, modifies=(), returns=None, let=None,
                  inline=False, spec=None, drops=(), props=(), name=None, exc_ensures=None, hints=(),
                  use_at_calls=True, expect_raise_paths=None, path_assumes=(), trusted=False, note=None,
-                 allow_other_exc=(), overrides=None, max_paths=400, timeout_s=None, kwargs_call=None, pure=False, varargs=None):
+                 allow_other_exc=(), overrides=None, max_paths=400, timeout_s=None, kwargs_call=None, pure=False, varargs=None, harness=None, module=None):
+        self.harness = harness
+        self.module = module
         self.pure = pure
         self.varargs = varargs
         self.qual = qual
@@ -325,7 +327,7 @@ class Engine:
     def apply_contract(self, it, c, vals):
         """call site of a function under contract: assert requires, havoc frame, assume ensures"""
         p = it.p
-        m, ci, node, kind = self.repo.find(c.qual)
+        m, ci, node, kind = self.find_target(c)
         env = self.spec_env(it, c, m, vals)
         for nm, ex in c.let.items():
             env.vars[nm] = self.eval_clause(it, ex, env)
@@ -388,10 +390,23 @@ class Engine:
                 return v
         return ExcClass(name, it.p.exc_bases.get(name, ('Exception',)))
 
+    def find_target(self, c):
+        if c.harness:
+            m = self.repo.module(c.module)
+            if m is None:
+                return None
+            tree = ast.parse(c.harness)
+            node = [n for n in tree.body if isinstance(n, ast.FunctionDef)][-1]
+            for n in tree.body:
+                if isinstance(n, ast.FunctionDef) and n is not node:
+                    m.funcs.setdefault('__harness_' + n.name, n)
+            return m, None, node, 'harness'
+        return self.repo.find(c.qual)
+
     # ---- verification of one contract
     def verify(self, c):
         t0 = time.time()
-        found = self.repo.find(c.qual)
+        found = self.find_target(c)
         if found is None:
             return {'contract': c.name, 'qual': c.qual, 'status': 'undecided', 'reason': 'function not found in /repo',
                     'vcs': [], 'paths': 0, 'wall_s': 0}
@@ -437,10 +452,11 @@ class Engine:
             status = 'vacuous'
         return {'contract': c.name, 'qual': c.qual, 'status': status, 'reason': error,
                 'file': os.path.relpath(m.path, self.repo.root), 'line': node.lineno,
-                'sha256': self.repo.sha_of(m, node), 'vcs': [r.to_json() for r in results], 'paths': len(paths),
+                'sha256': self.repo.sha_of(m, node) if not c.harness else None, 'vcs': [r.to_json() for r in results], 'paths': len(paths),
                 'path_summaries': paths, 'dropped': sorted(dropped), 'wall_s': round(time.time() - t0, 3),
                 'props': c.props, 'trusted': c.trusted,
-                'replay_info': {'spec': c.spec, 'let': c.let, 'requires': c.requires, 'kind': kind}}
+                'replay_info': {'spec': c.spec, 'let': c.let, 'requires': c.requires, 'kind': kind, 'harness': c.harness,
+                                'module': c.module}}
 
     def run_path(self, c, m, ci, node, kind, prefix, pid):
         path = Path(self, prefix)
